@@ -142,7 +142,7 @@ fn run_session(seed: u64, n: u64, long: bool, ev: &mut Evidence) {
                     Some(x) => x.clone(),
                     None => continue,
                 };
-                let mut send = |p: &mut Peer, items: &mut Vec<In>, txu: u16, _late: bool| {
+                let send = |p: &mut Peer, items: &mut Vec<In>, txu: u16, _late: bool| {
                     let serial = p.serial;
                     p.serial += 1;
                     let bytes = mbap_frame(txu, unit, &reply_pdu(plan.count, serial));
